@@ -173,6 +173,12 @@ func (c *regexpSimplifyChecker) walk(e syntax.Expr) {
 			out.WriteString("*")
 			c.score++
 		case "{0}":
+			if c.hasCapture(e.Args[0]) {
+				// Removing the operand would renumber the capture groups.
+				c.walk(e.Args[0])
+				out.WriteString(rep)
+				break
+			}
 			// Maybe {0} should be reported by another check, regexpLint?
 			c.score++
 		case "{1}":
@@ -234,6 +240,19 @@ func (c *regexpSimplifyChecker) walk(e syntax.Expr) {
 	default:
 		out.WriteString(e.Value)
 	}
+}
+
+// hasCapture reports whether e contains a capturing group.
+func (c *regexpSimplifyChecker) hasCapture(e syntax.Expr) bool {
+	if e.Op == syntax.OpCapture || e.Op == syntax.OpNamedCapture {
+		return true
+	}
+	for _, a := range e.Args {
+		if c.hasCapture(a) {
+			return true
+		}
+	}
+	return false
 }
 
 func (c *regexpSimplifyChecker) walkGroup(g syntax.Expr) {
@@ -322,7 +341,7 @@ func (c *regexpSimplifyChecker) simplifyCharClass(e syntax.Expr) string {
 }
 
 func (c *regexpSimplifyChecker) canMerge(x, y syntax.Expr) bool {
-	if x.Op != y.Op {
+	if x.Op != y.Op || c.hasCapture(x) {
 		return false
 	}
 	switch x.Op {
@@ -334,7 +353,7 @@ func (c *regexpSimplifyChecker) canMerge(x, y syntax.Expr) bool {
 }
 
 func (c *regexpSimplifyChecker) canCombine(x, y syntax.Expr) (threshold int, ok bool) {
-	if x.Op != y.Op {
+	if x.Op != y.Op || c.hasCapture(x) {
 		return 0, false
 	}
 
